@@ -2,7 +2,10 @@
 (* Case enumeration for C20 / C23: TLC enumerates the value grammar of LiteralsOps up to   *)
 (* depth 2 (Modes "assert" / "render": every value x observation position x member index) and the      *)
 (* (requested type x configuration flag combination x draw index) cases of literal         *)
-(* generation and mutation (Mode "draws").  Every case is emitted once as JSON.            *)
+(* generation and mutation (Mode "draws"), there also the parse-only literal inputs         *)
+(* (integer literal tokens of every base / sign / underscore placement, alone, as complex   *)
+(* components and in containers) from which a mutation chain starts.                        *)
+(* Every case is emitted once as JSON.                                                      *)
 EXTENDS LiteralsOps, TLC, Json
 
 CONSTANTS Mode,      \* "assert" (C20 cases) | "render" (C23 a) | "draws" (C23 b)
@@ -27,7 +30,8 @@ PairCoreT == PairCoreQ \cup {Leaf("int", "i_zero"), Leaf("int", "i_digits"), Lea
               Leaf("enum", "e_flagcombo"), Leaf("enum", "e_foreign"), Cplx("f_nan", "f_ninf"),
               Leaf("obj", "o_dict_keys")}
 PairCore == IF Size = "quick" THEN PairCoreQ ELSE PairCoreT
-NestCore == PairCore \cup {Leaf("float", "f_pos"), Leaf("str", "s_squote"), Leaf("int", "i_neghuge")}
+NestCore == PairCore \cup {Leaf("float", "f_pos"), Leaf("str", "s_squote"), Leaf("int", "i_neghuge"),
+                         Leaf("int", "i_digits"), Leaf("int", "i_negdigits")}
 
 (* values that are equal and hash alike collapse inside sets / as dict keys: not enumerated together *)
 NumGroup(x) == CASE x.c \in {"i_zero", "f_zero", "f_negzero", "b_false"} -> 1
@@ -71,9 +75,76 @@ Relevant(t, f) == /\ (f.pool = "refs" => t \in {"list", "tuple", "set", "dict"})
                   /\ (f.assembly = "on" => t \in {"str", "dict", "list", "tuple", "set"} /\ f.seeding = "always")
 StartFlags == {f \in Flags : f.seeding = "off" /\ f.pool = "none" /\ f.assembly = "off" /\ f.perturb = "never"
                               /\ f.sizes \in {"default", "large"}}
-StartAtoms == {v \in Atoms : InLitDomain(v) /\ v.c # "i_digits"}
+StartAtoms == {v \in Atoms : InLitDomain(v)}
 NoTerm == Leaf("-", "")
 NoFlags == [seeding |-> "-", sizes |-> "-", pool |-> "-", perturb |-> "-", assembly |-> "-"]
+
+(* ---------------- parse-only literal inputs ---------------- *)
+(* digit sequences are stated here, member m of a pattern; the adapter only writes them as text *)
+Gen(base, n, m) == [i \in 1..n |-> IF i = 1 THEN 1 + (m % (base - 1)) ELSE ((i * 7919 + m * 104729) % 1009) % base]
+PatLen(pat, base) ==
+  CASE pat = "multi" -> 4
+    [] pat = "w33"   -> (CASE base = 2 -> 34 [] base = 8 -> 12 [] base = 10 -> 11 [] OTHER -> 9)       \* > 2^32
+    [] pat = "big"   -> (CASE base = 2 -> 75 [] base = 8 -> 27 [] base = 10 -> 25 [] OTHER -> 20)      \* > 2^64
+    [] pat = "huge"  -> (CASE base = 2 -> 14800 [] base = 8 -> 4934 [] OTHER -> 3700)                  \* >= 10^4300
+PatDigits(pat, base, m) ==
+  CASE pat = "zero" -> <<0>>
+    [] pat = "one" -> <<1>>
+    [] pat = "maxd" -> <<base - 1>>
+    [] pat = "lead0" -> IF base = 10 THEN <<0, 0>> ELSE <<0, 0>> \o Gen(base, 3, m)
+    [] OTHER -> Gen(base, PatLen(pat, base), m)
+WithUS(ds, mode) ==
+  LET n == Len(ds) IN
+  CASE mode = "group"  -> [i \in 1..(n + (n - 1) \div 3) |-> IF i % 4 = 0 THEN US ELSE ds[i - i \div 4]]   \* 123_456_7
+    [] mode = "each"   -> [i \in 1..(2 * n - 1) |-> IF i % 2 = 0 THEN US ELSE ds[(i + 1) \div 2]]          \* 1_2_3
+    [] mode = "prefix" -> <<US>> \o ds                                                                    \* 0x_ff
+    [] OTHER -> ds
+Bases == {10, 16, 2, 8}
+HugeBases == IF Size = "quick" THEN {16} ELSE {16, 2, 8}
+Pats(base) == {"zero", "one", "maxd", "multi", "lead0", "w33", "big"} \cup (IF base \in HugeBases THEN {"huge"} ELSE {})
+USModes(pat, base) == {"none"} \cup (IF pat \in {"multi", "lead0", "w33", "big", "huge"} THEN {"group"} ELSE {})
+                               \cup (IF pat \in {"multi", "lead0"} THEN {"each"} ELSE {})
+                               \cup (IF base # 10 /\ pat \in {"one", "multi", "big"} THEN {"prefix"} ELSE {})
+Ups(pat, base, us) == IF base # 10 /\ pat \in {"multi", "big"} /\ us \in {"none", "prefix"} THEN {FALSE, TRUE} ELSE {FALSE}
+Tok(sg, base, pat, us, up, m) == IntTok(sg, base, WithUS(PatDigits(pat, base, m), us), up)
+PName(sg, base, pat, us, up) == [sg |-> sg, base |-> base, pat |-> pat, us |-> us, up |-> up]
+(* a literal alone, for every sign / base / pattern / underscore placement / letter case *)
+BareLits(m) ==
+  UNION {UNION {UNION {{<<PName(sg, b, pat, us, up), LInt(Tok(sg, b, pat, us, up, m))>> :
+                          sg \in {"", "-"}, up \in Ups(pat, b, us)} : us \in USModes(pat, b)} : pat \in Pats(b)} : b \in Bases}
+    \cup {<<PName("+", b, pat, "none", FALSE), LInt(Tok("+", b, pat, "none", FALSE, m))>> :
+            b \in Bases, pat \in {"one", "multi"}}
+(* as complex components and inside containers: a core of tokens *)
+Two == LInt(IntTok("", 10, <<2>>, FALSE))
+CoreToks(pats, uss, m) ==
+  UNION {UNION {{<<PName(sg, b, pat, us, FALSE), LInt(Tok(sg, b, pat, us, FALSE, m))>> :
+                   sg \in {"", "-"}, us \in USModes(pat, b) \cap uss} : pat \in pats \cap Pats(b)} : b \in Bases}
+CplxCtxs == {"cre", "cim"}
+ContCtxs == {"list", "tuple", "set", "dictkey", "dictval", "pair", "nested"}
+InCtx(c, x) == CASE c = "cre" -> LCont("Complex", <<x, Two>>)
+                 [] c = "cim" -> LCont("Complex", <<Two, x>>)
+                 [] c = "list" -> LCont("List", <<x>>)
+                 [] c = "tuple" -> LCont("Tuple", <<x>>)
+                 [] c = "set" -> LCont("Set", <<x>>)
+                 [] c = "dictkey" -> LCont("Dict", <<LCont("DictElem", <<x, Two>>)>>)
+                 [] c = "dictval" -> LCont("Dict", <<LCont("DictElem", <<Two, x>>)>>)
+                 [] c = "pair" -> LCont("List", <<x, Two, x>>)
+                 [] c = "nested" -> LCont("List", <<LCont("Tuple", <<x>>), LCont("Dict", <<LCont("DictElem", <<x, LCont("Set", <<x>>)>>)>>)>>)
+(* float(int) is exact below 2^53 and raises OverflowError above 2^1024: complex components stay small *)
+ParseLits(m) == {<<"bare", x[1], x[2]>> : x \in BareLits(m)}
+                  \cup {<<c, x[1], InCtx(c, x[2])>> : c \in CplxCtxs, x \in CoreToks({"zero", "multi"}, {"none", "group"}, m)}
+                  \cup {<<c, x[1], InCtx(c, x[2])>> : c \in ContCtxs, x \in CoreToks({"multi", "huge"}, {"none"}, m)}
+PDraws(ctx) == {d \in Draws : d <= (IF ctx = "bare" THEN 2 ELSE 1)}     \* mutation chains per literal
+PFlags == [seeding |-> "off", sizes |-> "default", pool |-> "none", perturb |-> "never", assembly |-> "off"]
+PCase(ctx, name, lit, m, i) == [op |-> "parse", ctx |-> ctx, name |-> name, lit |-> lit, m |-> m,
+                                req |-> LitType(lit), flags |-> PFlags, i |-> i]
+RECURSIVE LitWF(_)
+LitWF(t) == (t.k = "Int" => TokWF(t.tok)) /\ \A i \in DOMAIN t.es : LitWF(t.es[i])
+(* self-check of the specification: every enumerated literal is well-formed; the two ways of stating the *)
+(* magnitude of a base 2 / 8 / 16 literal agree (on all but the huge ones: Horner is quadratic)          *)
+ASSUME Mode = "draws" => \A m \in Members : \A x \in BareLits(m) :
+          /\ LitWF(x[2])
+          /\ (x[1].pat # "huge" => HornerMag(Digs(x[2].tok.ds), x[2].tok.base) = Mag(x[2].tok))
 
 Case(op, v, p, m, t, f, i, s) == [op |-> op, v |-> v, pos |-> p, m |-> m, req |-> t, flags |-> f, i |-> i, start |-> s]
 
@@ -91,6 +162,9 @@ Next ==
                Relevant(t, f) /\ case' = Case("draw", NoTerm, "-", 0, t, f, i, NoTerm)
           \/ \E s \in StartAtoms, f \in StartFlags, i \in Draws :
                case' = Case("start", NoTerm, "-", 0, s.k, f, i, s)
+          \/ \E m \in Members : \E x \in ParseLits(m) : \E i \in PDraws(x[1]) :
+               /\ (m = 0 \/ PatDigits(x[2].pat, x[2].base, m) # PatDigits(x[2].pat, x[2].base, 0))   \* a new member
+               /\ case' = PCase(x[1], x[2], x[3], m, i)
 Spec == Init /\ [][Next]_case
 Emit == case.op # "none" => PrintT(<<"HIST", ToJson(case)>>)
 =============================================================================
